@@ -481,7 +481,11 @@ func runC06(c *Ctx) {
 	}
 	if wf := c.P.Method("service", "connection", "write"); wf != nil {
 		ok, d := false, "the writer never calls the reply function"
-		for _, b := range wf.Blocks {
+		var wblocks []*ssa.BasicBlock // the writer and the helpers of the package its select arms may be moved into
+		for _, wf2 := range c.familyOf(wf) {
+			wblocks = append(wblocks, wf2.Blocks...)
+		}
+		for _, b := range wblocks {
 			for _, ins := range b.Instrs {
 				call, isC := ins.(*ssa.Call)
 				if !isC || call.Call.StaticCallee() == nil || call.Call.StaticCallee().Name() != "defaultReplyEvent" {
@@ -543,7 +547,11 @@ func runC06(c *Ctx) {
 	reader := c.P.Method("service", "connection", "reader")
 	if reader != nil {
 		ok, d := false, "no lookup of the handler table in the reader"
-		for _, b := range reader.Blocks {
+		var readerBlocks []*ssa.BasicBlock // the reader and the helpers of the package its loop body is split into
+		for _, rf := range c.familyOf(reader) {
+			readerBlocks = append(readerBlocks, rf.Blocks...)
+		}
+		for _, b := range readerBlocks {
 			iff, isIf := b.Instrs[len(b.Instrs)-1].(*ssa.If)
 			if !isIf {
 				continue
@@ -574,7 +582,8 @@ func runC06(c *Ctx) {
 			}
 			if len(miss.Succs) != 1 || !miss.Succs[0].Dominates(b) {
 				// must jump back to the range loop head
-				if len(miss.Succs) != 1 {
+				_, retBlock := miss.Instrs[len(miss.Instrs)-1].(*ssa.Return)
+				if len(miss.Succs) != 1 && !(retBlock && b.Parent() != reader) { // in a helper: returning to the loop
 					ok, d = false, "the no-handler branch does not simply continue with the next message"
 				}
 			}
@@ -589,7 +598,14 @@ func runC06(c *Ctx) {
 	if reader != nil {
 		var reads []*ssa.Call
 		var sendsM []*ssa.Send
-		for _, b := range reader.Blocks {
+		var rblocks []*ssa.BasicBlock
+		for _, rf := range c.familyOf(reader) {
+			if rf.Name() == "onReadExecutionEvent" {
+				continue
+			}
+			rblocks = append(rblocks, rf.Blocks...)
+		}
+		for _, b := range rblocks {
 			for _, ins := range b.Instrs {
 				if call, isC := ins.(*ssa.Call); isC {
 					if sc := call.Call.StaticCallee(); sc != nil && sc.Name() == "onReadExecutionEvent" {
@@ -606,7 +622,7 @@ func runC06(c *Ctx) {
 		ok, d := len(reads) == 1 && len(sendsM) == 1, fmt.Sprintf("%d read-callback calls and %d hand-overs to the writer in the reader loop (expected one each)", len(reads), len(sendsM))
 		if ok {
 			rb, sb := reads[0].Block(), sendsM[0].Block()
-			if !(rb.Dominates(sb) && rb != sb) {
+			if rb.Parent() != sb.Parent() || !(rb.Dominates(sb) && rb != sb) {
 				ok, d = false, "the read callback does not precede (dominate) the hand-over of the message to the writer: a reply can be written before / without the read callback"
 			}
 		}
